@@ -17,6 +17,17 @@ func init() {
 		}}
 	}
 	// more weight on instances with many conflicts and a tiny learned-clause limit
+	// long runs: LBD restarts need 50+ conflicts and a recent-LBD surge, so they only happen on
+	// instances with hundreds to thousands of conflicts
+	c06 = append(c06, Gen{Name: "3sat-restarts", Weight: 12, Make: func(r *Rng, tier string) interface{} {
+		n := r.Range(90, 140)
+		m := int(float64(n)*4.26) + r.Range(-n/8, n/8)
+		c := makeCnfCase(r, genKSat(r, n, m, 3), 0)
+		c.Certified = true
+		c.NbMax = []int{0, 16}[r.Intn(2)]
+		c.Front = "slice"
+		return c
+	}})
 	c06 = append(c06, Gen{Name: "3sat-hard-nbmax4", Weight: 15, Make: func(r *Rng, tier string) interface{} {
 		n := r.Range(30, 90)
 		m := int(float64(n)*4.26) + r.Range(-n/6, n/6)
@@ -30,8 +41,8 @@ func init() {
 		Rule: "CNF formulas as for C01 plus harder uniform 3-SAT (30..90 variables) with the learned-clause limit lowered to 4 or 16, always solved with certificate generation to a channel; the emitted lines are replayed by the verified RUP checker (GS.rupFirstBad / GS.rupRefutes) and the run is repeated with certification off. Non-trivial = the search ran (status undetermined after parsing); distinct = distinct (formula, front-end, configuration).",
 		Gens:    c06,
 		Run:     func(o *Oracle, d json.RawMessage, oc *Outcome) { runCnfCase(o, d, oc, "C06") },
-		Cases:   defCases(2500, 40000),
-		Timeout: defDur(30*time.Second, 120*time.Second),
+		Cases:   defCases(3000, 40000),
+		Timeout: defDur(60*time.Second, 120*time.Second),
 		Wall:    defDur(50*time.Second, 12*time.Minute),
 	})
 }
